@@ -78,8 +78,8 @@ class PreSetWiener(Wiener):
 
         self.t0 = tlist[0]
         self.dt = tlist[1] - tlist[0]
-        self.shape = noise.shape[1:]
         self.noise = noise.T[:, np.newaxis, :].copy()
+        self.shape = self.noise.shape[1:]
         self.last_W = np.zeros(self.shape[-1], dtype=float)
         self.idx_last_0 = 0
         self.is_measurement = is_measurement
